@@ -283,6 +283,10 @@ impl World {
             .sum()
     }
     fn font_bytes(&self) -> Vec<u8> {
+        self.font_bytes_with(&mut |_, _| {})
+    }
+    /// `edit(table index, encoded mapping table)` may change the bytes before they go into the font
+    fn font_bytes_with(&self, edit: &mut dyn FnMut(usize, &mut Vec<u8>)) -> Vec<u8> {
         let n = self.num_glyphs as usize;
         let mut glyf = vec![];
         let mut offs = vec![0u32];
@@ -293,11 +297,12 @@ impl World {
             offs.push(glyf.len() as u32);
         }
         let mut extra: Vec<(T4, Vec<u8>)> = vec![(*b"cmap", cmap12_bytes(&self.cmap)), (*b"tab1", b"abcdef\n".to_vec())];
-        if let Some(t) = &self.tabs[0] {
-            extra.push((*b"IFT ", encode_tab(t, self.num_glyphs)));
-        }
-        if let Some(t) = &self.tabs[1] {
-            extra.push((*b"IFTX", encode_tab(t, self.num_glyphs)));
+        for (k, tag) in [*b"IFT ", *b"IFTX"].into_iter().enumerate() {
+            if let Some(t) = &self.tabs[k] {
+                let mut b = encode_tab(t, self.num_glyphs);
+                edit(k, &mut b);
+                extra.push((tag, b));
+            }
         }
         fontkit::Kit { num_glyphs: self.num_glyphs, upem: 1000, glyf: Some((glyf, offs)), extra, ..Default::default() }.build()
     }
@@ -1295,8 +1300,9 @@ fn test_extend(c: &Case, stats: &Stats) -> CaseResult {
             }
         };
         if !group.has_uris() {
+            // not a verdict (the statement only speaks about rounds that have URIs); oracle (a) owns the offer itself
             if exact && !cands.is_empty() {
-                return Err(fail("progress-early-stop", format!("round {round}: no URIs left although the reference still offers {:?}", cands.iter().map(|c| &c.uri).collect::<Vec<_>>())));
+                stats.class("extend:stopped-with-candidates-left");
             }
             break;
         }
@@ -1306,6 +1312,17 @@ fn test_extend(c: &Case, stats: &Stats) -> CaseResult {
         round += 1;
         let uris: Vec<String> = group.uris().map(|s| s.to_string()).collect();
         let mut plans: BTreeMap<String, Plan> = BTreeMap::new();
+        if let Some(u) = uris.iter().find(|u| !cands.iter().any(|c| c.uri == **u)) {
+            if exact {
+                return Err(fail("select-not-offered", format!("round {round}: group contains {u:?} which no intersecting entry of the (model-tracked) font produces; uris {uris:?}")));
+            }
+            end = "unknown-uri(model-inexact)";
+            break;
+        }
+        if exact {
+            // oracle (c) again, on mapping tables whose applied / ignored bits were written by the library itself
+            check_group(&uris, &cands)?;
+        }
         for u in &uris {
             if applied.contains(u) {
                 continue;
@@ -1384,6 +1401,108 @@ fn test_extend(c: &Case, stats: &Stats) -> CaseResult {
             stats.sample(serde_json::json!({"stage": "extend", "def": d.describe(), "ok_rounds": ok_rounds, "table_keyed_rounds": tk_rounds, "glyph_keyed_rounds": gk_rounds, "end": end,
                 "applied": applied.iter().collect::<Vec<_>>(), "entries": bound - 1}));
         }
+    }
+    Ok(())
+}
+
+// =============================================================================================
+// Stage 3: monotonicity alone, on mapping tables the reference does not model (byte edits behind the header)
+// =============================================================================================
+#[derive(Clone, Debug, Serialize, Deserialize)]
+struct HavocCase {
+    base: Case,
+    /// (IFTX instead of IFT, position, kind, value)
+    edits: Vec<(bool, u32, u8, u8)>,
+}
+fn test_havoc(hc: &HavocCase, stats: &Stats) -> CaseResult {
+    let w = World::build(&hc.base);
+    let mut changed = false;
+    let bytes = w.font_bytes_with(&mut |k, b| {
+        // format byte, reserved, flags and compatibility id stay: still "a format 1/2 mapping table" with distinct ids
+        const KEEP: usize = 21;
+        if b.len() <= KEEP {
+            return;
+        }
+        let before = b.clone();
+        for (tab, pos, kind, val) in &hc.edits {
+            if *tab as usize != k {
+                continue;
+            }
+            let p = KEEP + scale(*pos, b.len() - KEEP);
+            match kind % 4 {
+                0 => b[p] ^= *val | 1,
+                1 => b[p] = *val,
+                2 => b[p] = if val & 1 == 0 { 0 } else { 0xFF },
+                _ => {
+                    if p + 1 < b.len() {
+                        b.swap(p, p + 1)
+                    }
+                }
+            }
+        }
+        changed |= *b != before;
+    });
+    let font = FontRef::new(&bytes).map_err(|e| fail("harness-font", format!("FontRef::new: {e}")))?;
+    let defs = chain(&hc.base);
+    let mut res: Vec<Option<Ms>> = vec![];
+    for d in &defs {
+        stats.evals(1);
+        let lib = d.to_lib();
+        let Ok(r) = guarded(|| intersecting_patches(&font, &lib)) else {
+            stats.class("havoc:panic(totality is C02's)");
+            return Ok(());
+        };
+        let ms = r.ok().and_then(|list| {
+            let mut m = Ms::new();
+            for p in &list {
+                *m.entry((p.uri_string().ok()?, fmt_code(p.encoding()))).or_insert(0) += 1;
+            }
+            Some(m)
+        });
+        if let Some(m) = &ms {
+            // group invariants that need no model
+            if let Ok(Ok(g)) = guarded(|| PatchGroup::select_next_patches(font.clone(), &lib)) {
+                let uris: Vec<String> = g.uris().map(|s| s.to_string()).collect();
+                let set: BTreeSet<&String> = uris.iter().collect();
+                if set.len() != uris.len() {
+                    return Err(fail("select-duplicate-uri", format!("(edited table) group lists a URI twice: {uris:?}")));
+                }
+                if let Some(u) = uris.iter().find(|u| !m.keys().any(|k| k.0 == **u)) {
+                    return Err(fail("select-not-offered", format!("(edited table) group contains {u:?}, not among the intersecting patches {m:?}")));
+                }
+            }
+        }
+        res.push(ms);
+    }
+    let all = res.last().unwrap();
+    let mut prev: Option<&Ms> = None;
+    let mut strict_part = false;
+    for (d, r) in defs.iter().zip(&res) {
+        let Some(r) = r else { continue };
+        if let Some(p) = prev {
+            if !ms_subset(p, r) {
+                return Err(fail("monotone-chain", format!("(edited table) offered(D) ⊄ offered(D') for D ⊆ D' = {}: before {p:?}, after {r:?}", d.describe())));
+            }
+        }
+        if let Some(a) = all {
+            if !ms_subset(r, a) {
+                return Err(fail("monotone-all", format!("(edited table) offered({}) ⊄ offered(all): {r:?} vs {a:?}", d.describe())));
+            }
+            let (n, na): (usize, usize) = (r.values().sum(), a.values().sum());
+            strict_part |= n > 0 && n < na;
+        }
+        prev = Some(r);
+    }
+    let oks = res.iter().filter(|r| r.is_some()).count();
+    stats.class(if oks == 0 {
+        "havoc:table-rejected"
+    } else if oks == res.len() {
+        "havoc:table-accepted"
+    } else {
+        "havoc:accepted-for-some-definitions"
+    });
+    if changed && oks == res.len() && strict_part {
+        stats.nontrivial(hash_json(hc));
     }
     Ok(())
 }
@@ -1528,10 +1647,19 @@ fn main() {
          design-space segments, conjunctive/disjunctive children, id deltas / string ids, per-entry formats, ignored flags; format 1: glyph map + feature map + applied \
          bitmap, 8/16-bit widths, over a generated cmap) x ⊆-chains of subset definitions ending in the all-inclusive one. Non-trivial (select): a table has an entry \
          with a child reference or >= 2 constrained dimensions (format 1: a feature map) and some definition that is neither empty nor all is offered a non-empty strict \
-         part of offered(all). Non-trivial (extend): >= 2 successful apply rounds, or one with the post-state compared against the model. Distinct by hash of the case.",
+         part of offered(all). Non-trivial (extend): >= 2 successful apply rounds, or one with the post-state compared against the model. Non-trivial (monotone-havoc: the same tables \
+         with 1-3 byte edits behind the compatibility id, monotonicity and model-free group invariants only): the edit changed the table, every definition was answered and \
+         one got a non-empty strict part of offered(all). Distinct by hash of the case.",
     );
     ctx.assume("the reference intersection/URI expansion/encoders are harness code written from the rules quoted in patchmap.rs, ift.rs and the font-test-data fixtures; NoopBrotliDecoder is transparent");
-    ctx.prop_stage("select", Isolation::Threads, ctx.n(24_000, 400_000), || case_strategy(26, 4), test_select);
-    ctx.prop_stage("extend", Isolation::Threads, ctx.n(8_000, 120_000), || case_strategy(14, 3), test_extend);
+    ctx.prop_stage("select", Isolation::Threads, ctx.n(160_000, 1_200_000), || case_strategy(26, 4), test_select);
+    ctx.prop_stage("extend", Isolation::Threads, ctx.n(50_000, 360_000), || case_strategy(14, 3), test_extend);
+    ctx.prop_stage(
+        "monotone-havoc",
+        Isolation::Threads,
+        ctx.n(60_000, 450_000),
+        || (case_strategy(12, 4), proptest::collection::vec((any::<bool>(), any::<u32>(), 0u8..4, prop_oneof![Just(0u8), Just(1u8), Just(0xFFu8), Just(0x80u8), any::<u8>()]), 1..4)).prop_map(|(base, edits)| HavocCase { base, edits }),
+        test_havoc,
+    );
     ctx.finish();
 }
